@@ -39,6 +39,12 @@ CHECKS = {
     design_ref="DESIGN.md section 5 C06",
     note="Trusted: Coq kernel + VM; hand-written model tied by correspondence; Generated/Builtins.v produced by introspection; soundness for types WITH use-site projections is not proved (it is false in general, see the refutations) -- there the check relies on sub_ref judging each explored pair.",
     technique="Coq proofs (model vs declarative relation, reference checker soundness) + correspondence + proven-sound reference judging every explored pair"),
+ "C17": dict(
+    category="proof",
+    text="Proved for every random draw (IR/Properties_C17.v): with use-site variance disabled _get_type_arg_variance returns Invariant, with contravariance disabled never Contravariant, never a projection on a parameter another bound mentions, and a projection only where the variance choices, the declared variance and both switches allow it; a zero probability never draws a bound / function type parameters; without with_variance (Java/Groovy classes, all function type parameters) the declared variance is Invariant. Generated/Config.v -- the effect of the four CLI flags on cfg, obtained by running src/args.py on all 16 combinations on every run -- is proved to set exactly these switches. The absence predicates on programs (NoUseSite, NoContraUseSite, NoBounds, NoParamFuncs, NoDeclVariance, FuncParamsInvariant) are defined over TypeOccurs (every type occurrence incl. nested arguments and bounds) and their checkers are proved equivalent (chk_honoured_iff). Per run, for each of the 16 combinations x 4 languages x seeds the real generator's program is serialised and the kernel proves Honoured switches program. PARTIAL: 'for all seeds' is sampled -- the whole-generator claim is validated per explored program (translation-validation strength), the switch logic is proved.",
+    design_ref="DESIGN.md section 5 C17",
+    note="Trusted: Coq kernel + VM; ir2coq serialiser (fail-closed); decision-fragment model tied by direct driving of _get_type_arg_variance under scripted choices; gen_type_params' draws are modelled, not driven.",
+    technique="Coq proofs of the switch logic for all draws + kernel-checked per-program certificates through a proved checker"),
 }
 
 NOT_APPLICABLE = {
@@ -46,7 +52,7 @@ NOT_APPLICABLE = {
  "C13": "The property is about CPython's pickle applied to ~40 IR classes; a Coq model would be a model of pickle and the only tie to the code would be the round-trip test itself (DESIGN.md section 6).",
 }
 
-PENDING = ["C01","C03","C04","C05","C08","C09","C10","C11","C12","C17","C18"]
+PENDING = ["C01","C03","C04","C05","C08","C09","C10","C11","C12","C18"]
 
 def main():
     checks = []
